@@ -129,6 +129,7 @@ func combinedHistory(c *vc.Ctx, idx int, label string, blocks int, tune func(*lo
 		after()
 		c.Count("combined_history_blocks", 1)
 	}
+	lh.closing(after)
 	if finish != nil && !lh.failed && !lh.vsetEnded {
 		finish()
 	}
